@@ -322,6 +322,19 @@ def register_compute(hub, props=("C03", "C09")):
         s = call.args[0]
         if call.exc is not None:
             return
+        pre = call.pre[0]
+        if "C03" in props and pre is not None:
+            # the driver array (prescribed stock / given inflow) is an input of compute(), not a result
+            cls = type(s).__name__
+            drivers = {"StockDrivenDSM": ["stock"], "InflowDrivenDSM": ["inflow"], "SimpleFlowDrivenStock": ["inflow", "outflow"]}.get(cls, [])
+            for dname in drivers:
+                before = getattr(pre, dname, None)
+                if before is not None:
+                    rec.event(M03, sig=f"driver-kept|{cls}|{dname}", cls=f"driver-kept|{cls}")
+                    from ..model import Snap as _Snap
+
+                    if not _Snap(getattr(s, dname)).same(before):
+                        rec.violation(M03, f"compute-overwrote-its-driver:{cls}:{dname}", {"class": cls, "solver": getattr(s, "solver", ""), "dims": list(s.dims.letters)}, prop="C03")
         if "C03" in props:
             check_conservation(rec, s)
             check_self_balance(rec, fd, s)
